@@ -89,7 +89,13 @@ class MachineModel:
             raise TypeError(f'Expected GateSet, got {type(gate_set)}.')
 
         self.gate_set = gate_set
-        self.coupling_graph = CouplingGraph(coupling_graph)
+        if isinstance(coupling_graph, CouplingGraph):
+            self.coupling_graph = CouplingGraph(coupling_graph)
+        else:
+            # Size the graph by the machine, not by the largest qudit that
+            # happens to have an edge: trailing uncoupled qudits are still
+            # part of the machine.
+            self.coupling_graph = CouplingGraph(coupling_graph, num_qudits)
         self.num_qudits = num_qudits
 
     def get_locations(self, block_size: int) -> list[CircuitLocation]:
